@@ -428,23 +428,28 @@ def handleH2 (inp impl : Json) : Verdict :=
   -- Spec.msgsOK, the cut remainder of the response need not be reported when the stream ends that way.
   let specPcomplete := (unfinishedSpec l.cp pb).map (render "p")
   let pOk := pEv == specP || (clientLoss && pEv == specPcomplete)
-  -- … and it adds RequestBodyEnd(err) even when the request had already ended (the code says so itself:
-  -- "TODO: We shouldn't add RequestBodyEnd event if the trace already has an event of that type"): a second
-  -- body end.  Reported in agent-notes/s14.md; such sessions are counted and set aside, not judged.
+  -- F33 (known finding): … and it adds RequestBodyEnd(err) even when the request had already ended (the code
+  -- says so itself: "TODO: We shouldn't add RequestBodyEnd event if the trace already has an event of that
+  -- type"): a second request body end.  That violates "a single body-end event": `holds` is false, and when
+  -- the second body end is the ONLY deviation the reason starts with "F33: " (the registry's matcher).
   let secondEnd := clientLoss && reqEndedBefore
-  let traceOk := (qEv == specQ || (secondEnd && qEv == specQ ++ [render "q" (.bodyEnd .other)])) && pOk && (!l.gotResp || startOk implAll)
+  let f33 := secondEnd && qEv == specQ ++ [render "q" (.bodyEnd .other)]
+  let restOk := pOk && (!l.gotResp || startOk implAll)
+  let traceOk := qEv == specQ && restOk
   let holds := traceOk && transparent && traces.length == 1
+  let onlyF33 := f33 && restOk && transparent && traces.length == 1
   let mQ := mEvents.filter (fun (e : String) => e.startsWith "q")
   let mP := mEvents.filter (fun (e : String) => e.startsWith "p")
   { agree := implEvents == mEvents && (mQ == specQ || secondEnd) && (mP == specP || clientLoss) && traces.length == 1 && transparent,
     holds := holds,
-    nontrivial := l.cq.isStream && !qb.isEmpty && !secondEnd,
+    nontrivial := l.cq.isStream && !qb.isEmpty,
     model := toJson mEvents,
-    cls := if secondEnd then "set-aside:second-request-body-end-on-client-connection-loss" else "h2:" ++ (if l.reqEnded == some .nil && l.respEnded.isSome then "request-ends-first"
+    cls := if secondEnd then "h2:client-connection-loss-after-request-end" else "h2:" ++ (if l.reqEnded == some .nil && l.respEnded.isSome then "request-ends-first"
                      else if l.respEnded.isSome then "response-ends-first" else "request-aborted") ++
            (if l.cq.isStream then ":" ++ tailName (parse qb).2 else ""),
     why := if holds then "" else
-      if !transparent then "not transparent: " ++ str (field impl "viol")
+      if onlyF33 then s!"F33: second request body end — the request had ended (END_STREAM) when the connection was lost on the client side, cancelAll added RequestBodyEnd again: {implEvents}"
+      else if !transparent then "not transparent: " ++ str (field impl "viol")
       else if traces.length != 1 then s!"{traces.length} traces delivered for the stream"
       else s!"body events {implEvents} but the bytes that arrived (request {hex qb}, response {hex pb}) give {specQ ++ specP}" }
 
